@@ -224,6 +224,12 @@ func forgetProgram(prog *ssa.Program) {
 		return true
 	})
 	worldByProg.Delete(prog)
+	loopBodyCache.Range(func(k, v interface{}) bool {
+		if b, ok := k.(*ssa.BasicBlock); ok && b.Parent() != nil && b.Parent().Prog == prog {
+			loopBodyCache.Delete(k)
+		}
+		return true
+	})
 }
 
 // origInstr returns the program's instruction for a per-activation copy (or ins itself).
@@ -542,6 +548,26 @@ func (p *pwPath) constOfD(v ssa.Value, d int) (constant.Value, bool) {
 			}
 		}
 	case *ssa.Convert:
+		// string([]byte{c0, c1, ...}) with constant elements
+		if bt, isB := x.Type().Underlying().(*types.Basic); isB && bt.Info()&types.IsString != 0 {
+			if _, isSlice := x.X.Type().Underlying().(*types.Slice); isSlice {
+				if els, ok := p.sliceElems(x.X); ok && len(els) > 0 {
+					bs := make([]byte, 0, len(els))
+					for _, e := range els {
+						c, ok := p.constOfD(e, d+1)
+						if !ok || c.Kind() != constant.Int {
+							return nil, false
+						}
+						n, exact := constant.Int64Val(c)
+						if !exact || n < 0 || n > 255 {
+							return nil, false
+						}
+						bs = append(bs, byte(n))
+					}
+					return constant.MakeString(string(bs)), true
+				}
+			}
+		}
 		if a, ok := p.constOfD(x.X, d+1); ok {
 			if bt, isB := x.Type().Underlying().(*types.Basic); isB && bt.Info()&types.IsString != 0 && a.Kind() == constant.String {
 				return a, true
@@ -744,6 +770,35 @@ func (pw *pathWalker) finish(s *pwState, end string, ret *ssa.Return) {
 		return
 	}
 	pw.paths = append(pw.paths, s.p)
+}
+
+var loopBodyCache sync.Map // header block -> map[*ssa.BasicBlock]bool
+
+// loopBodyOf: the natural loop of header h: h and the blocks that reach one of its back edges without passing through h.
+func loopBodyOf(h *ssa.BasicBlock) map[*ssa.BasicBlock]bool {
+	if v, ok := loopBodyCache.Load(h); ok {
+		return v.(map[*ssa.BasicBlock]bool)
+	}
+	body := map[*ssa.BasicBlock]bool{h: true}
+	var work []*ssa.BasicBlock
+	for _, p := range h.Preds {
+		if h.Dominates(p) && !body[p] {
+			body[p] = true
+			work = append(work, p)
+		}
+	}
+	for len(work) > 0 {
+		b := work[len(work)-1]
+		work = work[:len(work)-1]
+		for _, p := range b.Preds {
+			if !body[p] && h.Dominates(p) {
+				body[p] = true
+				work = append(work, p)
+			}
+		}
+	}
+	loopBodyCache.Store(h, body)
+	return body
 }
 
 // normCond: the condition a branch really depends on -- negations stripped, and a comparison of a
@@ -1015,6 +1070,12 @@ func (pw *pathWalker) run(s *pwState) []*pwState {
 							hit = true
 						}
 					}
+					if !hit && !pw.noTables {
+						if v, ok := s.p.tableElem(x); ok {
+							s.p.alias[x] = v
+							hit = true
+						}
+					}
 					// a package variable that only its initialiser writes: the value the initialiser stores
 					if g, isG := x.X.(*ssa.Global); isG && !hit && !pw.noTables && g.Pkg != nil {
 						if w := worldOfProg(g.Pkg.Prog); w != nil {
@@ -1145,7 +1206,10 @@ func (pw *pathWalker) run(s *pwState) []*pwState {
 				goto nextBlock
 			case *ssa.If:
 				if s.exiting != nil {
-					r0, r1 := blockReaches(b.Succs[0], s.exiting, false), blockReaches(b.Succs[1], s.exiting, false)
+					// (does the edge stay in the loop of that header? -- its natural loop, so that an enclosing
+					// loop, through which everything reaches the header again, does not count)
+					body := loopBodyOf(s.exiting)
+					r0, r1 := body[b.Succs[0]], body[b.Succs[1]]
 					if r0 != r1 {
 						// exactly one edge leaves the loop: take it, and record the decision that does
 						exit := 0
